@@ -162,6 +162,58 @@ PROPS = {
 }
 
 
+# ---- regenerated tie (harness/gofn.go -> Gen/Code.lean; Model/GenEq/*.lean) ------------------------
+# For each property: the proof modules whose theorems `<fn>_regenerated` state that the Lean definition
+# TRANSLATED FROM THE GO SOURCE ON THIS RUN equals the hand-written model function the property's
+# theorems are about. They are proof obligations of the property like the theorems in Props/<id>.lean:
+# if one no longer checks, the property is no longer shown to hold for the code as it is now.
+# A function the translator refuses (outside its Go subset) makes its theorem vacuous; the tie for that
+# function then rests on the correspondence groups alone (reported in the evidence).
+GENEQ = "RosedVerif.Model.GenEq."
+REGEN = {
+    "Block": ["blockLen", "blockLine", "blockCharCount", "blockSet", "blockAppend", "blockJoin"],
+    "Align": ["countLeadingWhitespace", "countTrailingWhitespace", "alignLineLeft", "alignLineRight", "alignLineCenter"],
+    "Collapse": ["collapseSpace", "editorCollapseSpaceOpts", "editorCollapseSpace"],
+    "Wrap": ["appendWordToWrappedLine", "wrap"],
+    "Justify": ["justifyLine"],
+    "Combine": ["combineColumnBlocks"],
+    "Table": ["parseTableCharSet", "buildTable", "makeTable"],
+    "Options": ["optionsWithDefaults", "edit", "editorWithOptions", "editorIsSubEditor"],
+    "Chars": ["editorCharCount", "editorSubEd", "editorChars", "editorCharsFrom", "editorCharsTo"],
+    "Lines": ["editorLinesSep", "editorLines", "editorLineCount", "editorLinesSel", "editorLinesFrom", "editorLinesTo"],
+    "Commit": ["editorCommit", "editorCommitAll", "editorString"],
+    "Edit": ["editorInsert", "editorDelete", "editorOvertype"],
+    "Apply": ["editorApplyOpts", "editorApply"],
+    "Paras": ["editorApplyGParagraphsOpts", "editorApplyParagraphsOpts", "editorApplyParagraphs"],
+    "WrapOpts": ["editorWrapOpts", "editorWrap"],
+    "IndentOpts": ["editorIndentOpts", "editorIndent"],
+    "InsertTable": ["editorInsertTableOpts", "editorInsertTable"],
+}
+REGEN_OF = {
+    "C04": ["Chars"], "C05": ["Chars", "Commit"], "C06": ["Collapse", "Wrap", "WrapOpts"],
+    "C07": ["Collapse", "Wrap", "Justify", "Align", "IndentOpts", "WrapOpts"], "C08": ["Options"],
+    "C09": ["Edit"], "C10": ["Lines", "Apply"], "C11": ["Paras", "WrapOpts", "IndentOpts"], "C12": ["Justify"],
+    "C13": ["Align"], "C14": ["Combine", "Wrap"], "C15": ["Combine", "Wrap"], "C16": ["Table", "InsertTable", "Block"],
+    "C17": ["Options", "WrapOpts", "IndentOpts", "Collapse", "Apply", "Paras", "InsertTable"],
+    "C18": ["Block", "Chars", "Lines", "Commit", "Edit"],
+}
+
+
+def regen_modules(root, pid):
+    """proof modules of the regenerated tie for this property (empty until Model/GenEq exists)"""
+    mods = []
+    for g in REGEN_OF.get(pid, []):
+        if os.path.exists(os.path.join(root, "lean", "RosedVerif", "Model", "GenEq", g + ".lean")):
+            mods.append(GENEQ + g)
+    if REGEN_OF.get(pid) and not mods and os.path.exists(os.path.join(root, "lean", "RosedVerif", "Model", "GenCodeEqA.lean")):
+        mods = ["RosedVerif.Model.GenCodeEqA"]
+    return mods
+
+
+def regen_theorems(pid):
+    return ["RosedVerif.GenCodeEq.%s_regenerated" % f for g in REGEN_OF.get(pid, []) for f in REGEN[g]]
+
+
 def theorems_of(root, pid):
     """every theorem declared in lean/RosedVerif/Props/<pid>.lean (property theorems only live there)"""
     path = os.path.join(root, "lean", "RosedVerif", "Props", pid + ".lean")
